@@ -220,11 +220,23 @@ def oracle_run(classes, argv):
         return any(fnmatch.fnmatchcase(full, p if '*' in p else '*%s*' % p) for p in pats)
 
     def tests(c):
+        if '.' in c:
+            # an individual method named as Class.method: under the tagged / list options only a tagged one is specified
+            c0, m0 = c.split('.', 1)
+            ct, ms = env[c0]
+            if m0 not in ms:
+                return None
+            if (tagged or check) and not (ct or ms[m0]):
+                return None
+            return [m0] if selected(c0, m0) else []
         ct, ms = env[c]
         return [m for m in sorted(ms) if ((not (tagged or check)) or ct or ms[m]) and selected(c, m)]
+    if any(tests(c) is None for c in sel):
+        return None
+    cls = lambda c: c.split('.', 1)[0]
     if check:
-        return ([], [c for c in sel if tests(c)])
-    return ([c + '.' + m for c in sel for m in tests(c)], [])
+        return ([], [cls(c) for c in sel if tests(c)])
+    return ([cls(c) + '.' + m for c in sel for m in tests(c)], [])
 
 
 def gen_run_argv(rng, classes, in_dom=True):
@@ -454,6 +466,22 @@ def run(ctx):
         elif in_dom and r < 0.3 and not any(a in [c[0] for c in classes] for a in argv[1:]):
             extra = 'hook'               # the module builds its own nested suites in load_tests
             tail = []
+        elif in_dom and r < 0.42:
+            # individual methods named as Class.method (one contiguous block of names, as unittest requires)
+            env_ = effective(classes)
+            opts_ = [a for a in argv[1:] if a.startswith('-')]
+            names_ = []
+            for _ in range(rng.choice([1, 1, 2])):
+                c_ = rng.choice(sorted(env_))
+                names_.append(rng.choice([c_ + '.' + m_ for m_ in sorted(env_[c_][1])] + [c_]) if env_[c_][1] else c_)
+            k_ = rng.randint(0, len(opts_))
+            argv = [argv[0]] + opts_[:k_] + names_ + opts_[k_:]
+            tail = []
+            extra = 'dotted'
+        elif in_dom and r < 0.52:
+            # the tagged / list option AFTER -w and its kinds
+            tail = [rng.choice(WRITE)] + rng.choice([['graph'], ['graph', 'table'], ['a,b']]) + [rng.choice(['-1', '-0', '-10'])]
+            extra = 'after-w'
         jobs.append((classes, argv, tail, in_dom, extra))
     work = tempfile.mkdtemp(prefix='c19-', dir=_workdir())
     try:
@@ -472,8 +500,8 @@ def run(ctx):
             ctx.bump('B.extra.' + extra)
             if extra == 'hook':
                 listed = sorted(set(listed), key=listed.index)     # a hook module names each class once per suite level
-            if extra == 'k':
-                mo = None                                          # -k is outside the model: decided by the oracle
+            if extra in ('k', 'dotted', 'after-w'):
+                mo = None                                          # outside the model: decided by the oracle
             elif mo is not None and cat == 'ran':
                 executed = sorted(executed)
                 m0 = model_run_decode(mo)
@@ -491,7 +519,8 @@ def run(ctx):
                 ctx.mismatch('B:run_module', {'classes': classes, 'argv': full}, repr(m),
                              repr((cat, executed, listed, rc, err)))
         if in_dom and in_domain(argv) and not (tail and len(tail) == 1):
-            want = oracle_run(classes, argv)
+            # (a single-dash tagged / list option after the kinds of -w still counts: the options may come before or after)
+            want = oracle_run(classes, argv + ([tail[-1]] if extra == 'after-w' else []))
             if want is None:
                 continue
             if extra == 'hook':
